@@ -399,6 +399,36 @@ func Gen(prop, tier string, seed, run uint64) Plan {
 			break
 		}
 	}
+	if (prop == "C06" || prop == "C09" || prop == "C11" || prop == "C10") && r.IntN(3) == 0 {
+		// a reference chain that ends in a sub-query reference: X <- b (plain
+		// reference) <- a (sub-query over b); X changes through marks, edits and
+		// converter events, i.e. invalidations that reach a only by inheritance
+		x := []string{"mark/m", "generated/g", "service/s"}[r.IntN(3)]
+		xdef := fmt.Sprintf("id:%d", r.IntN(nStreams+1))
+		if x == "service/s" {
+			xdef = []string{"sport:80,443", "cbytes:100:", "data:\"" + netsim.Markers[r.IntN(len(netsim.Markers))] + "\""}[r.IntN(3)]
+		}
+		chain := []Op{
+			{C: CMut, K: "AddTag", Name: x, Color: "#abcdef", Def: xdef},
+			{C: CMut, K: "AddTag", Name: "tag/b", Color: "#abcdef", Def: refName(x) + []string{"", " protocol:tcp", " cbytes:1:"}[r.IntN(3)]},
+			{C: CMut, K: "AddTag", Name: "tag/a", Color: "#abcdef", Def: "@o:tag:b " + []string{"sport:@o:sport@", "chost:@o:chost@", "shost:@o:shost@ sport:@o:sport@"}[r.IntN(3)]},
+		}
+		at := r.IntN(1 + len(mutOps)/3)
+		mutOps = append(mutOps[:at], append(chain, mutOps[at:]...)...)
+		for i, m := 0, 1+r.IntN(3); i < m; i++ {
+			kk := "MarkAdd"
+			if r.IntN(3) == 0 {
+				kk = "MarkDel"
+			}
+			tgt := x
+			if x == "service/s" {
+				tgt = "mark/m"
+			}
+			o := Op{C: CMut, K: kk, Name: tgt, IDs: ids()}
+			pos := at + len(chain) + r.IntN(len(mutOps)-at-len(chain)+1)
+			mutOps = append(mutOps[:pos], append([]Op{o}, mutOps[pos:]...)...)
+		}
+	}
 	if reversed && nf > 1 {
 		// endpoint filters decided before the earlier capture arrives
 		pre := []Op{
